@@ -267,19 +267,88 @@ type loopSpec struct {
 	scopeAt token.Pos
 }
 
+// loopSig is the header of a loop as text: what the loop iterates over or its condition.
+func loopSig(n ast.Node) string {
+	switch x := n.(type) {
+	case *ast.RangeStmt:
+		return "range " + types.ExprString(x.X)
+	case *ast.ForStmt:
+		if x.Cond == nil {
+			return "for"
+		}
+		return "for " + types.ExprString(x.Cond)
+	}
+	return ""
+}
+
+// loopContract finds the contract of a loop. Contracts are numbered in execution order; when the contract file
+// records the loop headers (`loop N @ header`), a loop is matched by its header first, so that a loop inserted or
+// removed elsewhere in the function does not shift the others; a loop whose header was rewritten falls back to its
+// ordinal if nothing else claims that contract.
 func (fc *FuncCtx) loopContract(n ast.Node) (*LoopContract, int) {
 	fc.loopOrd++
 	ord := fc.loopOrd
-	if fc.contract == nil || fc.contract.Loops[ord] == nil {
+	var lc *LoopContract
+	if fc.contract != nil && len(fc.contract.Loops) > 0 {
+		if fc.loopUsed == nil {
+			fc.loopUsed = map[*LoopContract]bool{}
+			fc.codeSigs = map[string]int{}
+			if fc.decl != nil && fc.decl.Body != nil {
+				ast.Inspect(fc.decl.Body, func(nd ast.Node) bool {
+					switch nd.(type) {
+					case *ast.ForStmt, *ast.RangeStmt:
+						fc.codeSigs[loopSig(nd)]++
+					}
+					return true
+				})
+			}
+		}
+		sig := loopSig(n)
+		// 1. same header (the lowest unused ordinal among equals, preferring the loop's own ordinal)
+		if c := fc.contract.Loops[ord]; c != nil && !fc.loopUsed[c] && c.Sig != "" && c.Sig == sig {
+			lc = c
+		}
+		if lc == nil {
+			best := 0
+			for o, c := range fc.contract.Loops {
+				if !fc.loopUsed[c] && c.Sig != "" && c.Sig == sig && (best == 0 || o < best) {
+					best = o
+				}
+			}
+			if best != 0 {
+				lc = fc.contract.Loops[best]
+			}
+		}
+		// 2. the contract with this ordinal, unless its own header still exists elsewhere in the function
+		if lc == nil {
+			if c := fc.contract.Loops[ord]; c != nil && !fc.loopUsed[c] && (c.Sig == "" || fc.codeSigs[c.Sig] == 0) {
+				lc = c
+			}
+		}
+		if lc != nil {
+			fc.loopUsed[lc] = true
+			if lc.Ord != 0 {
+				ord = lc.Ord
+			}
+		} else if fc.contract.Loops[ord] != nil || ord <= len(fc.contract.Loops) {
+			// a loop without a contract of its own: number it apart from the contracted ones
+			fc.autoLoops++
+			ord = 500 + fc.autoLoops
+		}
+	}
+	if fc.loopSigs == nil {
+		fc.loopSigs = map[int]string{}
+	}
+	fc.loopSigs[ord] = loopSig(n)
+	if lc == nil {
 		// no written contract: no invariant (everything the body assigns is unknown at the head); a counting
 		// loop gets its obvious variant, any other loop must be proved to terminate by a written one
-		lc := &LoopContract{Auto: true}
+		lc = &LoopContract{Auto: true}
 		if fs, ok := n.(*ast.ForStmt); ok {
 			lc.Decreases = fc.autoVariant(fs)
 		}
 		return lc, ord
 	}
-	lc := fc.contract.Loops[ord]
 	if fs, ok := n.(*ast.ForStmt); ok && lc.Decreases == nil && fc.contract.Opts["nonterminating"] == "" {
 		// written for a range loop (which needs no variant) or simply without one: use the header's
 		if v := fc.autoVariant(fs); v != nil {
